@@ -1,9 +1,10 @@
 #!/bin/sh
-# seedbatch.sh "C03 a" "C03 b" ...   runs seedcheck for each, one after the other, logs to /tmp/seedchk/log
+# seedbatch.sh "C03 a" "C03 b" ...   runs seedcheck for each, one after the other; log: $SEEDLOG (default /tmp/seedchk/log)
 mkdir -p /tmp/seedchk
+LOG=${SEEDLOG:-/tmp/seedchk/log}
 for item in "$@"; do
   set -- $item
-  echo "=== $item $(date +%H:%M:%S)" >> /tmp/seedchk/log
-  python3 $(dirname $0)/seedcheck.py $1 $2 $3 $4 >> /tmp/seedchk/log 2>&1
+  echo "=== $item $(date +%H:%M:%S)" >> $LOG
+  python3 $(dirname $0)/seedcheck.py $1 $2 $3 $4 >> $LOG 2>&1
 done
-echo "=== BATCH DONE $(date +%H:%M:%S)" >> /tmp/seedchk/log
+echo "=== BATCH DONE $(date +%H:%M:%S)" >> $LOG
